@@ -93,7 +93,9 @@ impl Default for SessionState {
 }
 
 impl SessionState {
-    fn set_document(&mut self, path: &Path, source: String) -> std::result::Result<(), String> {
+    fn set_document(
+        &mut self, path: &Path, source: String,
+    ) -> std::result::Result<DocumentRevision, String> {
         self.compiler.set_overlay(path, source.clone()).map_err(|error| error.to_string())?;
         let revision = DocumentRevision(self.next_document_revision);
         self.next_document_revision = self
@@ -101,7 +103,7 @@ impl SessionState {
             .checked_add(1)
             .expect("document revision counter overflowed");
         self.open_documents.insert(path.to_path_buf(), OpenDocument { source, revision });
-        Ok(())
+        Ok(revision)
     }
 
     fn close_document(&mut self, path: &Path) {
@@ -164,13 +166,24 @@ impl Cajun {
     async fn refresh_with_progress(
         &self, uri: &Url, progress: AnalysisProgressReporter,
     ) -> RefreshOutcome {
+        self.refresh_revision(uri, progress, None).await
+    }
+
+    /// Analyse the document as of `installed`, the revision the calling edit
+    /// handler installed itself, or as of its current revision.
+    async fn refresh_revision(
+        &self, uri: &Url, progress: AnalysisProgressReporter, installed: Option<DocumentRevision>,
+    ) -> RefreshOutcome {
         let path = match Self::path(uri) {
             | Ok(path) => path,
             | Err(error) => return RefreshOutcome::Failed(error),
         };
-        let revision = {
-            let session = self.session.lock().await;
-            session.revision(&path)
+        let revision = match installed {
+            | Some(revision) => Some(revision),
+            | None => {
+                let session = self.session.lock().await;
+                session.revision(&path)
+            }
         };
         // Fast path: an unchanged open document reuses its cached analysis.
         // Re-analyzing on every request would both waste the session's
@@ -183,32 +196,47 @@ impl Cajun {
                 return RefreshOutcome::Updated(path);
             }
         }
-        let analysis_path = path.clone();
-        let snapshot = {
-            let session = self.session.lock().await;
-            session.compiler.snapshot()
-        };
-        let analysis = match tokio::task::spawn_blocking(move || {
-            AnalysisTask::run(move || {
-                ProjectState::load_from_session(&analysis_path, &snapshot, |update| {
-                    progress.report(update)
+        loop {
+            let analysis_path = path.clone();
+            let snapshot = {
+                let session = self.session.lock().await;
+                // The snapshot must hold the text of `revision`: a newer edit of
+                // this document is analysed and published by its own handler.
+                if session.revision(&path) != revision {
+                    return RefreshOutcome::Superseded;
+                }
+                session.compiler.snapshot()
+            };
+            let progress = progress.clone();
+            let analysis = match tokio::task::spawn_blocking(move || {
+                AnalysisTask::run(move || {
+                    ProjectState::load_from_session(&analysis_path, &snapshot, |update| {
+                        progress.report(update)
+                    })
                 })
             })
-        })
-        .await
-        {
-            | Ok(analysis) => analysis,
-            | Err(error) => {
-                return self
-                    .commit_analysis(path, revision, Err(format!("analysis task failed: {error}")))
-                    .await;
+            .await
+            {
+                | Ok(analysis) => analysis,
+                | Err(error) => {
+                    return self
+                        .commit_analysis(
+                            path,
+                            revision,
+                            Err(format!("analysis task failed: {error}")),
+                        )
+                        .await;
+                }
+            };
+            match analysis {
+                | AnalysisTask::Completed(project) => {
+                    return self.commit_analysis(path, revision, project).await;
+                }
+                // Any write to the shared storage cancels running analyses. When the
+                // write was an edit of this document the test above ends the loop;
+                // an unrelated write must not leave this document unanalysed.
+                | AnalysisTask::Cancelled => continue,
             }
-        };
-        match analysis {
-            | AnalysisTask::Completed(project) => {
-                self.commit_analysis(path, revision, project).await
-            }
-            | AnalysisTask::Cancelled => RefreshOutcome::Superseded,
         }
     }
 
@@ -234,11 +262,12 @@ impl Cajun {
     }
 
     async fn analyze_and_publish(
-        &self, uri: Url, version: Option<i32>, mut progress: Option<AnalysisProgressSession>,
+        &self, uri: Url, version: Option<i32>, installed: Option<DocumentRevision>,
+        mut progress: Option<AnalysisProgressSession>,
     ) {
         let reporter =
             progress.as_mut().map(|progress| progress.take_reporter()).unwrap_or_default();
-        let outcome = self.refresh_with_progress(&uri, reporter).await;
+        let outcome = self.refresh_revision(&uri, reporter, installed).await;
         let refresh_semantic_tokens =
             matches!(&outcome, RefreshOutcome::Updated(_) | RefreshOutcome::Failed(_));
         let diagnostics = match outcome {
@@ -247,20 +276,24 @@ impl Cajun {
                 .read()
                 .await
                 .get(&path)
-                .map(|cached| cached.project.diagnostics(&path))
-                .unwrap_or_default(),
-            | RefreshOutcome::Superseded => Vec::new(),
-            | RefreshOutcome::Failed(message) => vec![Diagnostic {
+                .map(|cached| cached.project.diagnostics(&path)),
+            // Nothing was analysed for `version`: publishing an empty list would
+            // report "no diagnostics". The superseding edit's handler publishes.
+            | RefreshOutcome::Superseded => None,
+            | RefreshOutcome::Failed(message) => Some(vec![Diagnostic {
                 range: Range::new(Position::new(0, 0), Position::new(0, 1)),
                 severity: Some(DiagnosticSeverity::ERROR),
                 source: Some("cajun".to_string()),
                 message,
                 ..Diagnostic::default()
-            }],
+            }]),
         };
         if let Some(progress) = progress {
             progress.finish().await;
         }
+        let Some(diagnostics) = diagnostics else {
+            return;
+        };
         self.client.publish_diagnostics(uri, diagnostics, version).await;
         if refresh_semantic_tokens {
             self.request_semantic_tokens_refresh().await;
@@ -294,10 +327,9 @@ impl Cajun {
         HoverLineWidth::new(self.hover_line_width.load(Ordering::Relaxed)).unwrap_or_default()
     }
 
-    async fn set_document(&self, uri: &Url, text: String) -> Option<PathBuf> {
+    async fn set_document(&self, uri: &Url, text: String) -> Option<DocumentRevision> {
         let path = Self::path(uri).ok()?;
-        self.session.lock().await.set_document(&path, text).ok()?;
-        Some(path)
+        self.session.lock().await.set_document(&path, text).ok()
     }
 
     async fn document_source(&self, path: &Path) -> Option<String> {
@@ -386,9 +418,9 @@ impl LanguageServer for Cajun {
         if !ZydecoDocument::accepts(&document.uri) {
             return;
         }
-        self.set_document(&document.uri, document.text).await;
+        let installed = self.set_document(&document.uri, document.text).await;
         let progress = self.progress_session(&document.uri);
-        self.analyze_and_publish(document.uri, Some(document.version), progress).await;
+        self.analyze_and_publish(document.uri, Some(document.version), installed, progress).await;
     }
 
     async fn did_change(&self, params: DidChangeTextDocumentParams) {
@@ -405,18 +437,19 @@ impl LanguageServer for Cajun {
                 .await;
             return;
         };
-        self.set_document(&document.uri, change.text).await;
-        self.analyze_and_publish(document.uri, Some(document.version), None).await;
+        let installed = self.set_document(&document.uri, change.text).await;
+        self.analyze_and_publish(document.uri, Some(document.version), installed, None).await;
     }
 
     async fn did_save(&self, params: DidSaveTextDocumentParams) {
         if !ZydecoDocument::accepts(&params.text_document.uri) {
             return;
         }
-        if let Some(text) = params.text {
-            self.set_document(&params.text_document.uri, text).await;
-        }
-        self.analyze_and_publish(params.text_document.uri, None, None).await;
+        let installed = match params.text {
+            | Some(text) => self.set_document(&params.text_document.uri, text).await,
+            | None => None,
+        };
+        self.analyze_and_publish(params.text_document.uri, None, installed, None).await;
     }
 
     async fn did_close(&self, params: DidCloseTextDocumentParams) {
